@@ -177,6 +177,45 @@ def _is_quoter(prog: Program, f: Func, call: ast.Call) -> bool:
     return False
 
 
+def _param_args(prog: Program, f: Func, name: str):
+    """(caller, argument expression) bound to parameter `name` of the *private* function `f` at every resolved call
+    site; None when the function is public, has no resolved call site, or a site uses */** so the binding is unknown.
+    (A private helper handed around as a callback is not seen: the callers are those the call index resolves.)"""
+    if not f.name.startswith("_") or f.name.startswith("__") or isinstance(f.node, ast.Lambda):
+        return None
+    try:
+        sites = prog.callers(f.qualname)
+    except Exception:  # noqa: BLE001
+        return None
+    if not sites:
+        return None
+    a = f.node.args
+    pos = [x.arg for x in a.posonlyargs + a.args]
+    defaults = dict(zip(reversed(pos), reversed(a.defaults)))
+    for k, dv in zip(a.kwonlyargs, a.kw_defaults):
+        if dv is not None:
+            defaults[k.arg] = dv
+    bound = bool(pos) and pos[0] in ("self", "cls") and f.cls is not None
+    out = []
+    for g, c in sites:
+        if any(isinstance(x, ast.Starred) for x in c.args) or any(k.arg is None for k in c.keywords):
+            return None
+        kw = {k.arg: k.value for k in c.keywords}
+        if name in kw:
+            out.append((g, kw[name]))
+            continue
+        if name in pos:
+            idx = pos.index(name) - (1 if bound and isinstance(c.func, ast.Attribute) else 0)
+            if 0 <= idx < len(c.args):
+                out.append((g, c.args[idx]))
+                continue
+        if name in defaults:
+            out.append((f, defaults[name]))
+            continue
+        return None
+    return out
+
+
 def fragments(prog: Program, f: Func, expr: ast.AST, depth: int = 14, _seen: frozenset = frozenset(), at: ast.AST | None = None) -> list[Frag]:
     """Split the expression that builds a command (string or list of words) into
     constant / quoted / numeric / dynamic fragments."""
@@ -266,6 +305,12 @@ def fragments(prog: Program, f: Func, expr: ast.AST, depth: int = 14, _seen: fro
         for d in ds:
             if d.kind in ("assign", "walrus", "aug") and d.index is None:
                 out.extend(fragments(prog, f, d.value, depth - 1, seen if d.kind != "aug" else _seen | {expr.id}, d.stmt if d.kind != "walrus" else d.value))
+            elif d.kind == "param" and (sites := _param_args(prog, f, expr.id)) is not None and depth > 2:
+                # private helper: the parameter is what its resolved call sites pass
+                for g, e in sites:
+                    for fr in fragments(prog, g, e, depth - 2, frozenset(), e):
+                        fr.via = fr.via + [f"argument `{expr.id}` of {f.name} at {g.qualname}"]
+                        out.append(fr)
             else:
                 out.append(Frag("dyn", expr, expr.id, via=[d.kind]))
         # list accumulation: name.append(x) / name.extend(xs) / name.insert(i, x)
